@@ -3,7 +3,7 @@ use crate::util::*;
 use erbium::dhcp::dhcppkt;
 use erbium::dhcp::dhcppkt::Serialise as _;
 
-fn code(o: &dhcppkt::DhcpOption) -> u8 {
+pub fn code(o: &dhcppkt::DhcpOption) -> u8 {
     let mut v = vec![];
     o.serialise(&mut v);
     v[0]
